@@ -17,7 +17,7 @@ ID = 'C12'
 LEVEL = 'exploration'
 RULE = ('programs = innermost skeleton (every statement list over {call, FAIL, if, while, for, with, try/finally} with exactly one '
         'failing statement, up to the size bound) x 10 failure kinds x callee chains up to depth 3 over {converted, '
-        'do_not_convert, lambda, decorated} x call-site nesting {plain, in if, in for}; executions = all tapes on which the '
+        'do_not_convert, lambda, decorated, wrapped by a functools.wraps closure} x call-site nesting {plain, in if, in for}; executions = all tapes on which the '
         'original raises; distinct_nontrivial = distinct programs whose original raises on some tape')
 ASSUMPTIONS = ['message = substring containment of the original str(e)',
                'extra non-user frames (operator implementations) may sit between user frames of translated_stack',
@@ -38,7 +38,7 @@ FAILS = {
 }
 M = ps.Menu
 INNER = M('c12', ('S', 'FAIL'), ('if', 'ifelse', 'while', 'for', 'with', 'tryfin'), vars_=(), ret=(None,))
-CHAIN_KINDS = ('conv', 'dnc', 'lam', 'deco')
+CHAIN_KINDS = ('conv', 'dnc', 'lam', 'deco', 'wraps')
 NEST = ('plain', 'if', 'for')
 _S = {'tier': 'quick'}
 
@@ -108,6 +108,15 @@ def render(item, pid=0):
   kind, body, chain = item
   r = Rend(FAILS[kind][0])
   names = ['f'] + ['g%d' % (i + 1) for i in range(len(chain))]
+  if any(k == 'wraps' for k, _ in chain):
+    # a decorator of the program itself whose wrapper (a closure carrying __wrapped__) is user code as well
+    r.emit(0, 'def wraps_deco(fn):')
+    r.emit(1, '@functools.wraps(fn)')
+    r.emit(1, 'def inner(a):')
+    r.emit(2, 't(%d)' % r.new())
+    r.emit(2, 'return fn(a)')
+    r.emit(1, 'return inner')
+    r.emit(0, '')
   # functions are emitted outermost first; names[i] calls names[i+1]
   for i, name in enumerate(names):
     last = i == len(names) - 1
@@ -120,6 +129,8 @@ def render(item, pid=0):
       r.emit(0, '@dnc')
     if ckind == 'deco':
       r.emit(0, '@ident_deco')
+    if ckind == 'wraps':
+      r.emit(0, '@wraps_deco')
     if ckind == 'lam' and last:
       # a lambda cannot hold statements: it calls a plain helper holding the skeleton
       r.emit(0, '%s = lambda a: %s_body(a)' % (name, name))
@@ -197,7 +208,8 @@ def run_item(item, pid, drop_metadata=False):
       pass
     return r
   api._convert_actual = conv
-  extra = {'UE': UE, 'UC': UC, 'UCV': UCV, 'ident_deco': ident_deco, 'dnc': malt.experimental.do_not_convert}
+  import functools
+  extra = {'UE': UE, 'UC': UC, 'UCV': UCV, 'ident_deco': ident_deco, 'functools': functools, 'dnc': malt.experimental.do_not_convert}
   h = diff.Harness(src, pid, extra_globals=extra)
   fname = h.fname
   viol = []
@@ -320,7 +332,7 @@ def converted_on_path(item):
   for kind, _ in item[2]:
     if kind == 'dnc':
       break
-    n += 1
+    n += 2 if kind == 'wraps' else 1    # the functools.wraps closure and the function it wraps
     # the body helper of an innermost lambda is a further converted function
   if item[2] and item[2][-1][0] == 'lam' and all(k != 'dnc' for k, _ in item[2]):
     n += 1
